@@ -30,7 +30,7 @@ func vChainReq(tag string, withFwd bool, reverse bool, rd, xar, host, path, quer
 	return middlewareapi.AddRequestScope(req, &middlewareapi.RequestScope{ReverseProxy: reverse})
 }
 
-var vSafePath = regexp.MustCompile(`^/[A-Za-z0-9/._~!$&'()*+,;=:@-]*$`)
+var vSafePath = regexp.MustCompile(`^/[A-Za-z0-9/._~$&+,;=:@-]*$`)
 var vSafeQuery = regexp.MustCompile(`^[A-Za-z0-9/._~!$&'()*+,;=:@?%-]*$`)
 
 // whatever GetRedirect returns is "/" or something the validator accepted
